@@ -118,6 +118,8 @@ type hsConn struct {
 	toIn                    *hsPipeDir
 	toOut                   *hsPipeDir
 	closedByOut, closedByIn bool
+	// halfClose: Close on that side ends sending only and does not interrupt a pending Read (a quic stream)
+	halfOut, halfIn bool
 	// what each side consumed: sequence of authentic frame indexes, 0 for injected bytes
 	gotIn, gotOut         []int
 	partialIn, partialOut bool // consumed only part of some frame when the stream ended
@@ -182,7 +184,10 @@ func (s *hsSide) Read(p []byte) (int, error) {
 		dir = c.toIn
 	}
 	for {
-		if (s.isOut && c.closedByOut) || (!s.isOut && c.closedByIn) {
+		if c.h.over {
+			return 0, io.ErrClosedPipe
+		}
+		if (s.isOut && c.closedByOut && !c.halfOut) || (!s.isOut && c.closedByIn && !c.halfIn) {
 			return 0, io.ErrClosedPipe
 		}
 		if len(dir.segs) > 0 && !dir.held {
@@ -237,7 +242,9 @@ func (s *hsSide) Close() error {
 		c.closedByIn = true
 		c.toOut.closed = true
 	}
-	c.h.r.Event("close", "%s", s.tag())
+	if !c.h.over { // (goroutines released together at the end of the run close in any order)
+		c.h.r.Event("close", "%s", s.tag())
+	}
 	return nil
 }
 
@@ -246,6 +253,7 @@ type hsHarness struct {
 	s      *core.Sched
 	chunky bool
 	conns  []*hsConn
+	over   bool // the run is over: every pending read ends
 }
 
 // expected verdict of a fault-free handshake, from the configuration alone
@@ -316,6 +324,7 @@ func runC14(r *core.Run) {
 			ii++
 		}
 		c := &hsConn{h: h, n: i, out: ends[oi], in: ends[ii], toIn: &hsPipeDir{}, toOut: &hsPipeDir{}}
+		c.halfOut, c.halfIn = s.Flip("half-close-dialer", 0.2), s.Flip("half-close-listener", 0.2)
 		h.conns = append(h.conns, c)
 		p := plan{c: c, allowCheck: s.Flip("allowcheck", 0.4)}
 		plans = append(plans, p)
@@ -489,12 +498,21 @@ func runC14(r *core.Run) {
 	// whatever is still waiting can only be ended by its deadline
 	time.Sleep(deadline + time.Second)
 	for step := 0; step < 2000 && !r.Aborted(); step++ {
-		names := sch.Parked()
+		var names []string
+		for _, nm := range sch.Parked() {
+			// a reader left behind on a half-closed, silent stream waits for ever (the handshake call itself must
+			// have returned at its deadline)
+			if pt, _ := sch.ParkedPoint(nm); strings.HasPrefix(pt, "wait:") && !h.waiterRunnable(pt[5:]) {
+				continue
+			}
+			names = append(names, nm)
+		}
 		if len(names) == 0 {
 			break
 		}
 		sch.Grant(names[s.Choose("sched", len(names))])
 	}
+	defer func() { h.over = true; sch.ReleaseAll() }()
 	if r.Aborted() {
 		sch.ReleaseAll()
 		return
@@ -628,7 +646,7 @@ func (h *hsHarness) waiterRunnable(tag string) bool {
 			if !isOut {
 				dir = c.toIn
 			}
-			if (isOut && c.closedByOut) || (!isOut && c.closedByIn) {
+			if (isOut && c.closedByOut && !c.halfOut) || (!isOut && c.closedByIn && !c.halfIn) {
 				return true
 			}
 			return (len(dir.segs) > 0 && !dir.held) || (dir.closed && len(dir.segs) == 0)
